@@ -6,11 +6,11 @@ import (
 	"encoding/json"
 	"fmt"
 	"os"
-	"os/exec"
 	"reflect"
 	"strconv"
 	"strings"
 	"sync"
+	"time"
 
 	"github.com/cloudwego/frugal"
 	"github.com/cloudwego/frugal/debug"
@@ -60,8 +60,6 @@ func c17Items(tier string) int {
 }
 
 func runSubC17(seed uint64, items int, place, depth, size string) (*c17Result, error) {
-	exe, _ := os.Executable()
-	cmd := exec.Command(exe, "-sub", fmt.Sprintf("c17|%d|%d|%s", seed, items, place))
 	env := []string{}
 	for _, e := range os.Environ() {
 		if !strings.HasPrefix(e, "FRUGAL_MAX_INLINE") {
@@ -74,11 +72,13 @@ func runSubC17(seed uint64, items int, place, depth, size string) (*c17Result, e
 	if size != "" {
 		env = append(env, "FRUGAL_MAX_INLINE_IL_SIZE="+size)
 	}
-	cmd.Env = env
-	var out, errb bytes.Buffer
-	cmd.Stdout, cmd.Stderr = &out, &errb
-	if err := cmd.Run(); err != nil {
-		es := errb.String()
+	outB, errB, err, hung := runSub(fmt.Sprintf("c17|%d|%d|%s", seed, items, place), env, 10*time.Minute)
+	if hung {
+		return nil, fmt.Errorf("child exceeded the 10 min wall-clock limit")
+	}
+	out := bytes.NewBuffer(outB)
+	if err != nil {
+		es := string(errB)
 		if len(es) > 1200 {
 			es = es[:1200]
 		}
